@@ -157,7 +157,7 @@ pub fn units(tier: Tier, seed: u64) -> Vec<Unit> {
             u.push(unit!(format!("C05/negation/N={n}/k={k}"), negation(n, k)));
         }
     }
-    let big: Vec<(usize, usize)> = if tier == Tier::Quick { vec![(8, 20), (16, 36), (2, 40), (3, 60), (33, 70), (48, 70), (63, 70)] } else { vec![(6, 16), (8, 20), (12, 28), (16, 36), (32, 68), (2, 40), (3, 60), (5, 100), (33, 70), (40, 70), (48, 70), (63, 70), (64, 130), (100, 110)] };
+    let big: Vec<(usize, usize)> = if tier == Tier::Quick { vec![(8, 20), (16, 36), (2, 40), (3, 60), (33, 70), (48, 70), (63, 70), (5, 1040), (7, 8300)] } else { vec![(6, 16), (8, 20), (12, 28), (16, 36), (32, 68), (2, 40), (3, 60), (5, 100), (33, 70), (40, 70), (48, 70), (63, 70), (64, 130), (100, 110), (5, 1040), (7, 8300), (3, 66000)] };
     let first = u.len();
     for &(n, k) in &big {
         u.push(unit!(format!("C05/Rsi-definition/N={n}/k={k}/sample-path"), rsi_def(n, k)));
@@ -180,7 +180,7 @@ pub fn units(tier: Tier, seed: u64) -> Vec<Unit> {
 pub fn meta() -> Meta {
     Meta {
         functions: vec!["Rsi and MyRSI over a non-identity inner view (a harness 2-point mean), N <= 3", "Rsi::{new,update,last}", "MyRSI::{new,update,last}", "Echo::{update,last}"],
-        bounds: "N in {1,2,3} (quick; corollaries to 2) / {1..5} (thorough; corollaries to 4); k = 2N+3; inputs unconstrained reals; all comparison outcomes (ties are the else-branch of `change > 0`); in addition (N,k) in {(8,20),(16,36),(2,40),(3,60)} (quick) / up to (32,68),(5,100) (thorough) along the comparison path of a pseudo-random sample input; and N in {10,11} (quick) / {7,10,11,13,16} on fully symbolic shaped streams (alternating a,b; period-3 a,b,c; three free values then flat; flat then three free values), all comparison outcomes; the definitions also at (N,k) in {(33,70),(48,70),(63,70)} (quick) / +{(40,70),(64,130),(100,110)} along a sampled comparison path",
+        bounds: "N in {1,2,3} (quick; corollaries to 2) / {1..5} (thorough; corollaries to 4); k = 2N+3; inputs unconstrained reals; all comparison outcomes (ties are the else-branch of `change > 0`); in addition (N,k) in {(8,20),(16,36),(2,40),(3,60)} (quick) / up to (32,68),(5,100) (thorough) along the comparison path of a pseudo-random sample input; and N in {10,11} (quick) / {7,10,11,13,16} on fully symbolic shaped streams (alternating a,b; period-3 a,b,c; three free values then flat; flat then three free values), all comparison outcomes; the definitions also at (N,k) in {(33,70),(48,70),(63,70),(5,1040),(7,8300)} (quick; the long runs cross every power of two up to 8192 with a wrapped ring buffer) / +(3,66000) / +{(40,70),(64,130),(100,110)} along a sampled comparison path",
         outside: vec!["N > 5, longer streams", "f64 rounding residue of the running sums (that is C16, not claimed)"],
         assumptions: vec![],
     }
